@@ -88,9 +88,11 @@ Definition on_state_entry_completed (s r:nat) : M unit :=
 Definition mexec_entry_gen (fwd:bool) (fuel s:nat) (ev:evt) (k:ekind) : M unit :=
   match mchild s with
   | Some co =>
-      min_child s tt (co_entry_pre co ev k) ;;
-      mcb_at [s] KMEntry 0 ev false ;;
-      min_child s tt (co_entry_post co fuel ev k)
+      let body :=
+        min_child s tt (co_entry_pre co ev k) ;;
+        mcb_at [s] KMEntry 0 ev false ;;
+        min_child s tt (co_entry_post co fuel ev k) in
+      if mp11_entry_throw_resets then on_throw body (lift_child s tt (modify (fun rn => set_processing rn false))) else body
   | None =>
       mcb KEntry s ev false ;;
       match s_kind (get_state mc s) with
@@ -368,7 +370,9 @@ End MRtc.
 Fixpoint mexit_states (fuel:nat) (ev:evt) (l:list nat) : M unit :=
   match l with [] => ret tt | s :: t => mexec_exit fuel s ev ;; mexit_states fuel ev t end.
 
-Definition mon_exit_pre (fuel:nat) (ev:evt) : M unit := rn <- get ;; mexit_states fuel ev (act rn).
+(* the visitor only traverses a machine that has been started / entered (m_running) *)
+Definition mon_exit_pre (fuel:nat) (ev:evt) : M unit :=
+  rn <- get ;; if running rn then mexit_states fuel ev (act rn) else ret tt.
 Definition mon_exit_post (ev:evt) : M unit :=
   modify (fun rn => match m_hist mc with HNone => rn | _ => set_hist rn (act rn) end).
 
@@ -387,7 +391,8 @@ Definition mstart (fuel:nat) : M unit :=
   rn <- get ;;
   if running rn then ret tt
   else let ev := Evt EV_INIT 0 in
-       mon_entry_pre ev EkPlain ;; mcb KMEntry 0 ev false ;; mon_entry_post (mpei fuel) fuel ev EkPlain.
+       let body := mon_entry_pre ev EkPlain ;; mcb KMEntry 0 ev false ;; mon_entry_post (mpei fuel) fuel ev EkPlain in
+       if mp11_entry_throw_resets then on_throw body (modify (fun rn => set_processing rn false)) else body.
 Definition mstop (fuel:nat) : M unit :=
   rn <- get ;;
   if running rn
